@@ -540,6 +540,21 @@ func stageYAML(s *StageRec) string {
 	return sb.String()
 }
 
+// rawMeta lists what exists directly under .dud (the lock aside) and whether the cache directory exists.
+func (p *Project) rawMeta() string {
+	var names []string
+	if ents, err := os.ReadDir(filepath.Join(p.Root, ".dud")); err == nil {
+		for _, e := range ents {
+			if e.Name() != "lock" {
+				names = append(names, e.Name())
+			}
+		}
+	}
+	sort.Strings(names)
+	_, err := os.Lstat(p.CacheDir)
+	return fmt.Sprint(names, err == nil)
+}
+
 // ---------- commands and transitions ----------
 
 type Cmd struct {
@@ -774,11 +789,18 @@ func (p *Project) do(c Cmd, sems []CmdSem, specs []int, ref *Node, pre *World) (
 	if pre == nil {
 		pre = p.observe()
 	}
+	rawBefore := p.rawMeta()
 	res := p.dud(c.Cwd, c.argv()...)
+	rawAfter := p.rawMeta()
 	post := p.observe()
 	var obs []int
 	if p.Hung {
 		obs = append(obs, 3)
+	}
+	// 8: an entry the world does not model appeared or vanished (names directly under .dud, the
+	// cache directory itself): "byte-for-byte unchanged" includes those
+	if rawBefore != rawAfter {
+		obs = append(obs, 8)
 	}
 	// 100+i: the i-th stage file (order of the pre-state) was physically touched
 	for i, a := range pre.Stages {
